@@ -28,7 +28,7 @@ PROP = "C12"
 # ------------------------------------------------------------------------------------------------ Coq side
 
 HEADER = r'''Require Import Registry Attr Gen_Registry Gen_Ctors C12defs.
-From Coq Require Import String List Bool Ascii NArith. Import ListNotations. Open Scope string_scope.
+From Coq Require Import String List Bool Ascii NArith ZArith. Import ListNotations. Open Scope string_scope.
 Definition S_ (l : list nat) : string := fold_right (fun n s => String (ascii_of_nat n) s) EmptyString l.  (* UTF-8 bytes, each < 256 *)
 Inductive case :=
 | Dispatch (tag observed : string)
@@ -94,6 +94,8 @@ def coq_val(v):
         return "(VBool %s)" % ("true" if v else "false")
     if isinstance(v, str):
         return "(VStr %s)" % coq_str(v)
+    if isinstance(v, int):
+        return "(VNum (%d)%%Z %s)" % (v, coq_str(str(v)))
     try:
         t = bool(v)
     except Exception:
@@ -214,6 +216,8 @@ def values_for(cls, arg, ann, default, odfdo, tier):
         return list(OVERRIDES[(cls, arg)])
     if arg == "xml_id":
         return NCNAMES + [None]
+    if "color" in arg.lower() and "str" in ann:      # colour arguments are validated (hex or CSS name)
+        return ["#ff0000", "blue", None]
     a = ann.replace(" ", "")
     out = []
     if "bool" in a: out += [True, False]
@@ -435,7 +439,7 @@ def run_ctor(ctx, d):
     cls = ctx.classes[d["cls"]]
     ci = ctx.cinfo.get(d["cls"])
     kwargs = build_kwargs(ctx, d)
-    fails, cases, hist = [], [], []
+    fails, cases, hist, reach = [], [], [], []
     try:
         inst = with_timeout(lambda: cls(**kwargs))
     except (ValueError, TypeError, KeyError, AttributeError, IndexError) as e:
@@ -494,9 +498,20 @@ def run_ctor(ctx, d):
         hist.append(("ctor-arg", e["kind"]))
         # 0 is a value: an int argument given as 0 must be exposed (0 vs None), unless 0 means nothing for that argument
         if (e["kind"] == "Stored" and v == 0 and isinstance(v, int) and not isinstance(v, bool) and re.search(r"\bint\b", e["annotation"])
-                and (d["cls"], a) not in ZERO_IS_NOT_A_VALUE and str(raw_get(inst, e["prop"])) != "0"):
+                and (d["cls"], a) not in ZERO_IS_NOT_A_VALUE and not (e["guard"].startswith("GGe:") and int(e["guard"][4:]) > 0)
+                and str(raw_get(inst, e["prop"])) != "0"):
             fails.append(("ctor-arg-zero-dropped/%s.%s" % (d["cls"], a),
                           "%s(%s=0): property %s reads %r" % (d["cls"], a, e["prop"], raw_get(inst, e["prop"]))))
+        # handed to a method / stored component-wise: no table obligation.  Differential, aggregated over the run: SOME case
+        # with a non-default in-domain value must give another element than the same call without the argument (the
+        # conditions on other arguments -- VarSet.text needs display=True -- are not known to the translator)
+        if e["kind"] in ("ViaHelper", "StoredIndexed") and v not in (None, False, "", 0) and repr(v) != (e.get("default") or ""):
+            try:
+                other = cls(**{k: x for k, x in kwargs.items() if k != a})
+                changed = c14n(priv(other)) != c_inst
+            except Exception:
+                changed = True
+            reach.append((d["cls"], a, changed, e["note"]))
         # an argument that bears the name of a property of the class but is stored into ANOTHER one (BackgroundImage.repeat):
         # differential check that the same-named property exposes it
         if (e["kind"] in ("Stored", "NonProp") and e["prop"] != a and a in names and v not in (None, False, "", 0)
@@ -534,7 +549,8 @@ def run_ctor(ctx, d):
                                   "%s(%s=%r): the argument is stored nowhere (%s)" % (d["cls"], a, v, e["note"])))
                 continue
             g = e["guard"]
-            in_domain = (g == "GNone") or (g == "GTruthy" and bool(v)) or (g == "GNotNone" and v is not None)
+            in_domain = (g == "GNone") or (g == "GTruthy" and bool(v)) or (g == "GNotNone" and v is not None) or \
+                        (g.startswith("GGe:") and isinstance(v, int) and not isinstance(v, bool) and v >= int(g[4:]))
             if e["kind"] == "StoredCond" or not in_domain or e["conv"] in ("Const",):
                 continue
             conv = v
@@ -553,7 +569,7 @@ def run_ctor(ctx, d):
                     fails.append(("ctor-arg-custom/%s.%s" % (d["cls"], a),
                                   "%s(%s=%r): property %s of the %s object reads %r" % (d["cls"], a, v, prop, who, r)))
                     break
-    return cases, fails, hist, dict(xml=xml)
+    return cases, fails, hist, dict(xml=xml, reach=reach)
 
 
 def raw_get(o, p):
@@ -935,6 +951,26 @@ def gen_cases(ctx, tier, rng):
             for a in chosen:
                 kw[a] = enc(rng.choice(per_arg[a]))
             ds.append(dict(kind="ctor", cls=cname, kwargs=kw, focus=chosen))
+        # arguments handed over only under a condition on OTHER arguments (Style: family / area): all arguments at once for
+        # every value of those other arguments
+        cond = sorted({n for a in ci["args"] for n in a.get("cond_names", [])} & set(names))
+        if cond:
+            combos = list(itertools.islice(itertools.product(*[[v for v in per_arg[c] if v is not None] or [None] for c in cond]), 16))
+            extra_vals = {("Style", "family"): ["font-face"]}
+            for c in cond:
+                for v in extra_vals.get((cname, c), []):
+                    combos.append(tuple(v if x == c else ([w for w in per_arg[x] if w is not None] or [None])[0] for x in cond))
+            for combo in combos:
+                kw = dict(base)
+                for a in names:
+                    tv = [v for v in per_arg[a] if v not in (None, False, "", 0)]
+                    if tv:
+                        kw[a] = enc(tv[0])
+                for c, v in zip(cond, combo):
+                    kw[c] = enc(v)
+                if cname == "Style":
+                    kw["font_name"] = enc("Arial"); kw.pop("area", None)
+                ds.append(dict(kind="ctor", cls=cname, kwargs=kw, focus=[a for a in names if a in kw]))
         if names:   # all arguments at once, first truthy value of each
             kw = dict(base)
             for a in names:
@@ -1023,7 +1059,7 @@ def run(tier, seed, replay=None):
         descs = corpus + gen_cases(ctx, tier, rng)
         if not proofs["ok"]:
             descs = python_oracle_for_tables(ctx) + descs
-    cases, owner, fails, hist, impl_exc, samples = [], [], [], {}, [], []
+    cases, owner, fails, hist, impl_exc, samples, reached = [], [], [], {}, [], [], {}
     rejected = 0
     for i, d in enumerate(descs):
         try:
@@ -1041,8 +1077,16 @@ def run(tier, seed, replay=None):
             fails.append((i, key, detail))
         for h in hs:
             hist["%s:%s" % h] = hist.get("%s:%s" % h, 0) + 1
+        for (rc_, ra_, changed_, note_) in (extra or {}).get("reach", []) if isinstance(extra, dict) else []:
+            st = reached.setdefault((rc_, ra_), [False, i, note_])
+            st[0] = st[0] or changed_
         if len(samples) < 3 and d["kind"] == "ctor" and d["focus"]:
             samples.append(d)
+    if not replay:
+        for (rc_, ra_), (ok_, i_, note_) in sorted(reached.items()):
+            if not ok_:
+                fails.append((i_, "ctor-arg-never-reaches-xml/%s.%s" % (rc_, ra_),
+                              "%s(%s=...) (%s): in no exercised case does a non-default value change the element" % (rc_, ra_, note_)))
     # 3. Coq evaluates the model on everything observed
     # (identical observation terms are evaluated once; every owner of a failing term is reported)
     uniq, first = [], {}
@@ -1100,13 +1144,14 @@ def run(tier, seed, replay=None):
                       "modelled in Registry.v / Attr.v: _register_element_class, _get_lxml_tag, Element.from_tag, _generic_attrib_getter/_setter, "
                       "the `self.<prop> = <arg>` stores of every __init__ the translator recognises"],
         partial=True,
-        proved=["dispatch mechanism for all registration sequences (C12_registry_is_a_function, C12_first_registrant_wins, C12_known_tag_dispatches, C12_unknown_tag_falls_back)",
+        proved=["access paths in the model (Registry.access_run: children, parent, root, any selected node, clone): the wrapper's class is the registry's answer for its own node's tag, for every registry / tree / history, and two histories ending on one node agree (C12_access_paths_preserve_class, C12_access_paths_agree, C12_access_paths_dispatch); the model's assumption about the sources -- wrappers are only made by Element.from_tag / Element.from_tag_for_clone, self.from_tag in clone -- is the generated table wrap_sites (C12_wrap_sites_as_modelled)",
+                "dispatch mechanism for all registration sequences (C12_registry_is_a_function, C12_first_registrant_wins, C12_known_tag_dispatches, C12_unknown_tag_falls_back)",
                 "generated registry: own tags, effectiveness of every registration call, fallback, model = live dict (finite sweeps, bound = the tables)",
                 "generic attribute property laws incl. the exact exception set (C12_attr_*)",
                 "constructor arguments stored through generic properties are exposed after the whole constructor (C12_ctor_args_exposed, C12_ctor_flags_exposed); no argument dropped"],
         not_proved=["well-formedness and infoset equality of the lxml serialisation, same class and equal property values after re-parsing: differential testing (python level) on every case",
                     "class identity through children / get_elements / get_element / xpath / parent / root / clone / typed finders: observed pairs compared in Coq with the model registry, for the generated trees (depth <= 3) and the sample documents only",
-                    "arguments stored through hand-written properties, under conditions on other arguments, or used in other ways (table kinds StoredCond / NonProp / Unrecognised): differential testing only"],
+                    "arguments stored through hand-written properties, under conditions on other arguments, handed to a method (ViaHelper), stored component-wise (StoredIndexed) or used in other ways (Unrecognised): differential testing only (see ctor_table_kinds)"],
         level_note="proof for the mechanisms and the generated tables; testing (not proof) for per-class serialisation / re-parse / traversal behaviour",
         evaluations=len(cases), distinct_nontrivial=distinct, coq_terms_evaluated=len(uniq),
         receivers_overriding_an_access_path=sorted(n for n, k in ctx.classes.items() if overridden_paths(k, ctx.Element)),
